@@ -286,8 +286,8 @@ def run_units(units, tier, jobs=16, use_cache=True, log=None):
             tmo = max(tmo, 900)
         if os.environ.get("VERIF_TIMEOUT_CAP"):
             tmo = min(tmo, int(os.environ["VERIF_TIMEOUT_CAP"]))
-        # the LSP harnesses build Strings from symbolic chars and need ~15 GB each: run few at a time
-        group_jobs = min(jobs, 3) if crate == "trust_lsp" else jobs
+        # the LSP harnesses build Strings from symbolic chars and need 15-30 GB each: run two at a time
+        group_jobs = min(jobs, 2) if crate == "trust_lsp" else jobs
         cmd = kani_cmd(crate, [u.fq for u, _ in items], tmo, group_jobs, flags)
         # overall guard: every harness could run sequentially in the worst case, cap generously
         overall = 900 + tmo * (1 + len(items) // max(1, jobs // 2))
